@@ -7,6 +7,8 @@
  *   start hN sig | oneshot hN sig | stop hN | close hN | ref hN | unref hN | raise sig | run L
  *   nestraise A B      raise A; B is raised from inside A's handler (at its pipe write): both must be caught
  *   burst sig N        N guarded raises in a row (large bursts, up to and across the pipe capacity)
+ *   at K b|a SIG <start|oneshot|stop|close> hN [sig [cb]]
+ *                      the API call with SIG raised inside it, before/after its K-th system call (see inj_*)
  *   runraise L sig [op:h[:sig] ...]
  *                      one loop iteration during which `sig` is raised (and the ops are performed)
  *                      from a uv_check callback, i.e. after the poll phase, before the closing phase
@@ -15,7 +17,10 @@
  * malloc'ed up front, the pointers sorted, and id i is the i-th smallest address, so
  * that "pointer order" = "id order" as in the model.  Handles are freed in close_cb
  * (a message that outlives its handle is a heap-use-after-free for ASan). */
+#include <dlfcn.h>
+#include <errno.h>
 #include <fcntl.h>
+#include <time.h>
 #include <sys/syscall.h>
 #include <unistd.h>
 #include <signal.h>
@@ -44,12 +49,118 @@ static const int SIGS[] = { SIGHUP, SIGUSR1, SIGUSR2, SIGWINCH };
  * With every signal blocked in the handler (sa_mask full) B stays pending until A's handler has returned;
  * otherwise B's handler nests, waits for the signal lock A's handler holds, and the thread hangs. */
 static volatile sig_atomic_t nest_sig;
+
+/* at K b|a SIG <op> hN ...: a signal raised INSIDE one libuv signal API call, right before (b) / after (a)
+ * the K-th system call that call makes (read, write, pthread_sigmask, sigprocmask, sigaction(act != NULL),
+ * counted on the calling thread outside libuv's handler).  libuv is untouched: the calls are interposed here.
+ * The harness reports what the kernel did with the signal and where: `inj raised N` = libuv's handler ran
+ * after N lock sections of the call (a 1-byte write = the signal lock being released) had completed -
+ * either synchronously (signal unblocked at the injection point) or inside the mask call that unblocked it;
+ * `inj skipped-default N` / `inj dropped-default N` = the disposition was SIG_DFL at the point where the
+ * signal would have been delivered (the harness never takes the default action: not raised / consumed with
+ * sigtimedwait); `inj pending` = still blocked when the call returned; `inj none` = fewer than K calls.
+ * A handler that runs while the calling thread holds the signal lock never returns: alarm() watchdog. */
+static int inj_on, inj_armed, inj_k, inj_when, inj_sig, inj_calls, inj_lockw, inj_pending;
+static volatile sig_atomic_t inj_busy;
+static char inj_res[64];
+static int (*real_sigaction)(int, const struct sigaction*, struct sigaction*);
+static int real_mask(int how, const sigset_t* set, sigset_t* old) { return (int) syscall(SYS_rt_sigprocmask, how, set, old, 8); }
+static int inj_is_dfl(int sig) { struct sigaction sa; real_sigaction(sig, NULL, &sa); return sa.sa_handler == SIG_DFL; }
+static int inj_is_blocked(int sig) { sigset_t cur; sigemptyset(&cur); real_mask(SIG_BLOCK, NULL, &cur); return sigismember(&cur, sig) == 1; }
+static void inj_consume(int sig) {
+  sigset_t s; struct timespec z = { 0, 0 };
+  sigemptyset(&s); sigaddset(&s, sig);
+  sigtimedwait(&s, NULL, &z);
+}
+static void inj_fire(void) {
+  inj_armed = 0;
+  if (!inj_is_blocked(inj_sig)) {
+    if (inj_is_dfl(inj_sig)) { snprintf(inj_res, sizeof inj_res, "inj skipped-default %d", inj_lockw); return; }
+    snprintf(inj_res, sizeof inj_res, "inj raised %d", inj_lockw);
+    inj_busy = 1; raise(inj_sig); inj_busy = 0;      /* handler runs here, on this thread */
+  } else {
+    inj_busy = 1; raise(inj_sig); inj_busy = 0;      /* stays pending until the mask is restored */
+    inj_pending = 1;
+    snprintf(inj_res, sizeof inj_res, "inj pending");
+  }
+}
+/* watchdog for `at`: a helper process (libuv's handler runs with every signal blocked, so an alarm() would
+ * stay pending in exactly the hang it is meant to end).  'A' arms it, 'D' disarms it; armed for 5 s = SIGKILL. */
+#include <poll.h>
+static int wd_fd = -1;
+static void wd_start(void) {
+  int p[2]; pid_t me = getpid();
+  if (pipe(p)) abort();
+  fflush(stdout);
+  switch (fork()) {
+  case -1: abort();
+  case 0: {
+    char ch; struct pollfd pf;
+    for (int fd = 0; fd < 256; fd++) if (fd != p[0]) syscall(SYS_close, fd);
+    pf.fd = p[0]; pf.events = POLLIN;
+    for (;;) {
+      if (syscall(SYS_read, p[0], &ch, 1) != 1) _exit(0);
+      if (ch != 'A') continue;
+      if (poll(&pf, 1, 5000) == 0) { kill(me, SIGKILL); _exit(0); }
+    }
+  }
+  default: close(p[0]); wd_fd = p[1]; fcntl(wd_fd, F_SETFD, FD_CLOEXEC);
+  }
+}
+static void wd(char ch) { if (wd_fd == -1) wd_start(); if (syscall(SYS_write, wd_fd, &ch, 1) != 1) abort(); }
+static int inj_count(void) { return inj_on && !inj_busy; }
+static void inj_point(int after) {
+  int e = errno;
+  if (!after) inj_calls++;
+  if (inj_armed && inj_calls == inj_k && after == inj_when) inj_fire();
+  errno = e;
+}
+static int mask_common(int how, const sigset_t* set, sigset_t* old) {
+  int r, c = inj_count();
+  if (c) inj_point(0);
+  if (c && inj_pending && set != NULL &&
+      ((how == SIG_SETMASK && sigismember(set, inj_sig) != 1) || (how == SIG_UNBLOCK && sigismember(set, inj_sig) == 1))) {
+    inj_pending = 0;
+    if (inj_is_dfl(inj_sig)) { inj_consume(inj_sig); snprintf(inj_res, sizeof inj_res, "inj dropped-default %d", inj_lockw); }
+    else {
+      snprintf(inj_res, sizeof inj_res, "inj raised %d", inj_lockw);
+      inj_busy = 1; r = real_mask(how, set, old); inj_busy = 0;   /* the pending signal is delivered in here */
+      if (c) inj_point(1);
+      return r;
+    }
+  }
+  r = real_mask(how, set, old);
+  if (c) inj_point(1);
+  return r;
+}
+int pthread_sigmask(int how, const sigset_t* set, sigset_t* old) { int e = errno, r = mask_common(how, set, old); if (r) { r = errno; errno = e; } return r; }
+int sigprocmask(int how, const sigset_t* set, sigset_t* old) { return mask_common(how, set, old); }
+int sigaction(int sig, const struct sigaction* act, struct sigaction* old) {
+  int r, c;
+  if (!real_sigaction) real_sigaction = (int (*)(int, const struct sigaction*, struct sigaction*)) dlsym(RTLD_NEXT, "sigaction");
+  c = act != NULL && inj_count();
+  if (c) inj_point(0);
+  r = real_sigaction(sig, act, old);
+  if (c) inj_point(1);
+  return r;
+}
+ssize_t read(int fd, void* buf, size_t n) {
+  ssize_t r; int c = inj_count();
+  if (c) inj_point(0);
+  r = syscall(SYS_read, fd, buf, n);
+  if (c) inj_point(1);
+  return r;
+}
 ssize_t write(int fd, const void* buf, size_t n) {
+  ssize_t r; int c = inj_count();
   if (nest_sig) {
     for (int i = 0; i < nl; i++)
       if (loops[i] != NULL && fd == loops[i]->signal_pipefd[1]) { int g = nest_sig; nest_sig = 0; raise(g); break; }
   }
-  return syscall(SYS_write, fd, buf, n);
+  if (c) inj_point(0);
+  r = syscall(SYS_write, fd, buf, n);
+  if (c) { if (r == 1 && n == 1) inj_lockw++; inj_point(1); }
+  return r;
 }
 
 static int cmpp(const void* a, const void* b) {
@@ -148,6 +259,7 @@ static void obs(void) {
 int main(void) {
   char line[8192];
   setvbuf(stdout, NULL, _IOLBF, 0);
+  real_sigaction = (int (*)(int, const struct sigaction*, struct sigaction*)) dlsym(RTLD_NEXT, "sigaction");
   {  /* do not depend on what the parent left behind (nohup: SIGHUP ignored; blocked signals) */
     sigset_t set; sigemptyset(&set);
     for (int j = 0; j < NSIGS; j++) { signal(SIGS[j], SIG_DFL); sigaddset(&set, SIGS[j]); }
@@ -198,6 +310,22 @@ int main(void) {
         alarm(0);
         printf("raised 2\n");
       }
+      obs();
+    } else if (!strncmp(line, "at ", 3)) {
+      int ik, isig, rc = 0, ok; char wc;
+      if (sscanf(line, "at %d %c %d %15s h%d %d %d", &ik, &wc, &isig, op, &i, &sig, &cbid) < 5 || ik < 1 || ik > 64 ||
+          (wc != 'a' && wc != 'b') || !known_sig(isig) || i < 0 || i >= nh ||
+          (strcmp(op, "start") && strcmp(op, "oneshot") && strcmp(op, "stop") && strcmp(op, "close"))) { printf("bad-op\n"); continue; }
+      snprintf(inj_res, sizeof inj_res, "inj none");
+      inj_k = ik; inj_when = wc == 'a'; inj_sig = isig; inj_calls = 0; inj_lockw = 0; inj_pending = 0;
+      wd('A');                         /* watchdog: the call must return */
+      inj_armed = 1; inj_on = 1;
+      ok = do_op(op, i, sig, cbid & 1, &rc);
+      inj_on = 0; inj_armed = 0;
+      wd('D');
+      if (inj_pending) { inj_consume(inj_sig); inj_pending = 0; }   /* reported as `inj pending` */
+      printf("%s\n", inj_res);
+      if (ok) printf("ret %d\n", rc); else printf("ret skip\n");
       obs();
     } else if (sscanf(line, "raise %d", &sig) == 1) {
       if (!known_sig(sig)) { printf("bad-op\n"); continue; }
